@@ -12,8 +12,9 @@ for f in ("patch.diff", "demo_test.go", "notes.md", "confirm.log"):
 log = open(os.path.join(dst, "confirm.log")).read() if os.path.exists(os.path.join(dst, "confirm.log")) else ""
 files = sorted(set(re.findall(r"^\+\+\+ b/(\S+)", open(os.path.join(dst, "patch.diff")).read(), re.M)))
 tests = re.findall(r"^func (Test\w+)", open(os.path.join(dst, "demo_test.go")).read(), re.M)
-meta = dict(id="%s-%s" % (pid, m), property=pid, description=desc, files=files, demo_tests=tests,
-            apply="git -C /repo apply /verif/seeded/%s-%s/patch.diff" % (pid, m), undo="git -C /repo checkout -- .",
+name = os.path.basename(dst)
+meta = dict(id=name, property=pid, description=desc, files=files, demo_tests=tests,
+            apply="git -C /repo apply /verif/seeded/%s/patch.diff" % name, undo="git -C /repo checkout -- .",
             demo="copy demo_test.go to the root of a scratch worktree as zz_demo_test.go; go test -count=1 -run '%s' ." % "|".join(tests),
             confirmed=dict(compiles=True, existing_suite_passes=True, demo_fails_with_patch=True, demo_passes_without=True,
                            how="tools/confirm_seeded.sh in a scratch worktree (confirm.log)"),
